@@ -14,11 +14,35 @@ def dpkg_cmp(a, b):
     gt = subprocess.run(["dpkg", "--compare-versions", a, "gt", b], stderr=subprocess.PIPE)
     return 1 if gt.returncode == 0 else 0
 
+def batch_ref(cmd, pairs_text):
+    """run a reference driver reading 'a\tb' lines and printing one sign per line"""
+    p = subprocess.run(cmd, input="".join("%s\t%s\n" % ab for ab in pairs_text), stdout=subprocess.PIPE,
+                       stderr=subprocess.PIPE, text=True)
+    if p.returncode != 0:
+        raise vlib.Infra("reference driver failed: " + p.stderr[-2000:])
+    out = p.stdout.split("\n")[:len(pairs_text)]
+    return [None if o.strip() in ("", "E") else int(o) for o in out]
+
+MVN_JAR = "/usr/share/maven/lib/maven-artifact-3.x.jar"
+def maven_driver():
+    import os
+    d = os.path.join(vlib.OUT, "audit")
+    os.makedirs(d, exist_ok=True)
+    if not os.path.exists(os.path.join(d, "MvnCmp.class")):
+        p = subprocess.run(["javac", "-cp", MVN_JAR, "-d", d, os.path.join(vlib.VERIF, "audit", "MvnCmp.java")],
+                           stdout=subprocess.PIPE, stderr=subprocess.STDOUT, text=True)
+        if p.returncode != 0:
+            raise vlib.Infra("javac failed: " + p.stdout)
+    return ["java", "-cp", MVN_JAR + ":" + d, "MvnCmp"]
+
 def audit_pairs(run, prop, texts, pairfn, npairs, rnd):
     """texts: list of strings; pairfn(a,b)->sign or None (reference rejects)."""
     pairs = [(rnd.randrange(len(texts)), rnd.randrange(len(texts))) for _ in range(npairs)]
-    with cf.ThreadPoolExecutor(max_workers=16) as ex:
-        res = list(ex.map(lambda p: pairfn(texts[p[0]], texts[p[1]]), pairs))
+    if isinstance(pairfn, list):
+        res = batch_ref(pairfn, [(texts[i], texts[j]) for i, j in pairs])
+    else:
+        with cf.ThreadPoolExecutor(max_workers=16) as ex:
+            res = list(ex.map(lambda p: pairfn(texts[p[0]], texts[p[1]]), pairs))
     used = [[i + 1, j + 1, r] for (i, j), r in zip(pairs, res) if r is not None]
     rejected = sum(1 for r in res if r is None)
     # only texts the reference accepted may be judged; restrict texts to used ones
@@ -42,6 +66,11 @@ def main(pid):
                 texts += j["texts"]
             texts = sorted(set(texts))
             n, rej, mm = audit_pairs(run, "C10", texts, dpkg_cmp, 6000, rnd)
+        elif pid == "C12":
+            U = vlib.universe(run, ["maven"])
+            texts = sorted({t for t, _ in U["maven"]})
+            n, rej, mm = audit_pairs(run, "C12", texts, maven_driver(), 20000, rnd)
+            mm = [m for m in mm if m["why"] != "audit-scope"]   # the universe deliberately exceeds the scope
         else:
             print("no audit for", pid); return 2
         scope = [m for m in mm if m["why"] == "audit-scope"]
